@@ -207,6 +207,7 @@ fn main() {
                 ev.push_sample(s);
             }
             ev.set("distinct_nontrivial", serde_json::json!(classes.len()));
+            ev.set("exhaustive", serde_json::json!(true));
             ev.set("rule", serde_json::json!("(1) every interleaving of 'task i submits its next call' and 'the server processes the next queued request' for 2-3 tasks with 2-3 calls each on colliding keys over one real client connection (unix transport, real serve loop, real core task gated by the explorer), explored to the end and de-duplicated by (store, queue, task positions); (2) the same for tasks racing update() on one counter; (3) all sequences of set_later/publish_later on colliding keys and clock advances of D/2 and D for the send buffer on a paused clock, followed by a final advance; (4) the four unsubscribe variants x value/pattern/ls; distinct_nontrivial counts distinct (scenario, step kind) classes"));
             for a in [
                 "one stimulus at a time: after every release the harness yields a fixed number of times on a paused current-thread runtime (event_interval 1) and never parks, so a both-ready select! of the client's run loop is equivalent to one of the two sequential orders, both of which are explored",
